@@ -20,6 +20,7 @@ from . import boot                                    # noqa: F401
 from .runner import CaseResult, Part, exc_sig
 from . import schedsim, schedgen, execsim, c07
 from . import c08_raptor
+from . import fluxsim
 
 import radical.utils as ru
 import radical.pilot.states    as rps
@@ -109,6 +110,7 @@ def request_cases(draw):
 
 def parts(tier):
     return [Part('raptor_backlog', c08_raptor.cases(), quick=300, thorough=3000),
+            Part('flux_pipeline', fluxsim.cases(prelaunch=False), quick=300, thorough=2500),
             Part('sched', sched_cases(), quick=150, thorough=900),
             Part('exec', exec_cases(), quick=180, thorough=1500),
             Part('exec_sweep', enum=lambda tier: (c for c in c07.sweep_cases(tier)
@@ -120,6 +122,8 @@ def parts(tier):
 
 
 def normalise(case):
+    if case.get('kind') == 'fluxsim':
+        return fluxsim.normalise(case)
     if case.get('kind') == 'raptor_backlog':
         return c08_raptor.normalise(case)
     if case.get('kind') == 'sched':
@@ -376,6 +380,8 @@ def run_case(case):
     k = case.get('kind')
     if k == 'raptor_backlog':
         return c08_raptor.run_case(case)
+    if k == 'fluxsim':
+        return fluxsim.run_case_for(PID, case)
     if k == 'sched':
         run_sched(case, res)
     elif k in ('exec', 'sweep'):
